@@ -692,6 +692,76 @@ theorem C18_legacy_fetch_checked (md5 : Str → Str) (req : Str) (loc : LegacyLo
           · split at h <;> cases h
           · cases h
 
+/-- The legacy by-UUID delegate hands a collection to the client only for a GET of another
+cluster's UUID, only the record that cluster's configured peer sent, and only after
+`rewriteSignatures` accepted it with the UUID's prefix as cluster id and no expected hash: the
+relayed text is the received lines re-emitted with `legacyOutTok <prefix>` (only
+`SignedLocatorRe` tokens change, `+A` → `+R<prefix>-`), and the record is self-consistent (the
+hashed text hashes to its own `portable_data_hash` field) — there is no requested hash to compare
+with, as on the new by-UUID path (`C18_by_uuid_relay`). -/
+theorem C18_legacy_by_uuid_checked (md5 : Str → Str) (cid uuid : Str) (isGet : Bool)
+    (peer : Option LegacyLocal) (out : Str)
+    (h : legacyFetchByUUID md5 cid uuid isGet peer = .ok out) :
+    isGet = true ∧ uuid ≠ [] ∧ uuid.take 5 ≠ cid ∧
+    ∃ mt f, peer = some (.reply (.record mt f)) ∧
+      rewriteSignatures md5 (uuid.take 5) [] mt f = .ok out ∧
+      out = (scanLines mt).flatMap (fun l => lineOf (legacyOutTok (uuid.take 5)) (splitOn ' ' l)) ∧
+      (let hashed := (scanLines mt).flatMap (fun l => lineOf legacyHashTok (splitOn ' ' l))
+       md5 hashed ++ '+' :: natToDec hashed.length = f) := by
+  unfold legacyFetchByUUID at h
+  split at h
+  · cases h
+  · rename_i h1
+    split at h
+    · cases h
+    · rename_i h2
+      simp only [Bool.or_eq_true, Bool.not_eq_true', List.isEmpty_iff, not_or] at h1
+      refine ⟨by cases isGet <;> simp_all, h1.2, h2, ?_⟩
+      split at h
+      · cases h
+      · cases h
+      · cases h
+      · split at h <;> cases h
+      · rename_i mt f
+        cases hr : rewriteSignatures md5 (uuid.take 5) [] mt f with
+        | error e => rw [hr] at h; cases h
+        | ok o =>
+          rw [hr] at h
+          simp only [LegacyUFetch.ok.injEq] at h
+          subst h
+          obtain ⟨_, _, h3, h4⟩ := C18_legacy_checks_hash md5 (uuid.take 5) [] mt f o hr
+          exact ⟨mt, f, rfl, hr, h3, by simpa using h4⟩
+
+/-- Everything else the by-UUID delegate can answer: it declines exactly for non-GET requests,
+requests without a UUID and UUIDs of the own cluster (never touching a remote), and a remote's
+non-200 status is passed on unchanged. -/
+theorem C18_legacy_by_uuid_declines (md5 : Str → Str) (cid uuid : Str) (isGet : Bool)
+    (peer : Option LegacyLocal) :
+    legacyFetchByUUID md5 cid uuid isGet peer = .unhandled ↔
+      (isGet = false ∨ uuid = [] ∨ uuid.take 5 = cid) := by
+  unfold legacyFetchByUUID
+  cases isGet
+  · simp
+  · cases uuid with
+    | nil => simp
+    | cons a as =>
+      simp only [Bool.not_true, List.isEmpty_cons, Bool.or_false, Bool.false_eq_true, if_false]
+      by_cases hc : (a :: as).take 5 = cid
+      · simp [hc]
+      · simp only [hc, if_false]
+        constructor
+        · intro h
+          exfalso
+          revert h
+          split
+          · simp
+          · simp
+          · simp
+          · split <;> simp
+          · split <;> simp
+        · intro h
+          simp at h
+
 /-- the remote's bytes are already in the form the scanner re-emits: LF-terminated lines, no CR
 before LF -/
 def LegacyNormal (mt : Str) : Prop := (scanLines mt).flatMap (fun l => l ++ ['\n']) = mt
